@@ -243,12 +243,6 @@ class _InstallWrapper(IpcCommand):
     arg_parser = IpcArgumentParser()
     arg_parser.add_argument("targets", nargs="+", type=existing_path)
 
-    def __init__(self, *args, **kwargs):
-        super().__init__(*args, **kwargs)
-        self.parser.set_defaults(
-            insoptions=self.insoptions_default, diroptions=self.diroptions_default
-        )
-
     def parse_args(self, *args, **kwargs):
         # initialize file/dir creation coroutines, an error raised in one finishes it
         self.install = self._install().send
@@ -257,6 +251,11 @@ class _InstallWrapper(IpcCommand):
         self.install_from_dirs = self._install_from_dirs().send
 
         args = super().parse_args(*args, **kwargs)
+        # the parser is shared by all install commands, defaults are per command
+        if self.opts.insoptions is None:
+            self.opts.insoptions = command_options(self.insoptions_default)
+        if self.opts.diroptions is None:
+            self.opts.diroptions = command_options(self.diroptions_default)
         self.parse_install_options()
         return args
 
